@@ -319,6 +319,9 @@ func (ff *FuncFacts) nilEdges(phi *ssa.Phi, wantNil bool, seen map[*ssa.Phi]bool
 			if _, isMI := e.(*ssa.MakeInterface); isMI {
 				state = 2 // a concrete value boxed into the interface is not nil
 			}
+			if state == 0 {
+				state = ff.edgeNilState(phi, i) // package-level error values, errors.New(...), ...
+			}
 		}
 		if state == 0 || (state == 1) == wantNil {
 			out = append(out, [2]*ssa.BasicBlock{pred, phi.Block()})
@@ -1409,6 +1412,10 @@ func (ff *FuncFacts) edgeNilState(phi *ssa.Phi, i int) int {
 			}
 			return 2
 		}
+	}
+	// a package-level error value (errors.New at initialisation, never reassigned) is not nil
+	if _, isPhi := e.(*ssa.Phi); !isPhi && ff.ProvablyNonNil(e, pred, 0) {
+		return 2
 	}
 	return 0
 }
